@@ -15,7 +15,8 @@ try:
     ct = open(os.path.join(h, "Cargo.toml")).read().replace('path = "/repo"', 'path = "%s"' % wt)
     open(os.path.join(h, "Cargo.toml"), "w").write(ct)
     env = dict(os.environ, ORX_HARNESS_DIR=h, ORX_WORK=os.path.join(tmp, "work"), ORX_OUT=os.path.join(tmp, "out"))
-    res = {}
+    mp = os.path.join(seed, "matrix.json")
+    res = json.load(open(mp)) if os.path.exists(mp) else {}
     for p in pids:
         r = subprocess.run([os.path.join(V, "check"), p, "--tier", "quick"], cwd=V, env=env, stdout=subprocess.PIPE, stderr=subprocess.STDOUT, text=True)
         v = [l for l in r.stdout.split("\n") if l.startswith("VIOLATION")]
@@ -31,7 +32,7 @@ try:
                 pass
         res[p] = {"exit": r.returncode, "detected": kind, "why": why}
         print(p, r.returncode, kind, why[:110], flush=True)
-    json.dump(res, open(os.path.join(seed, "matrix.json"), "w"), indent=1)
+    json.dump(res, open(mp, "w"), indent=1)
 finally:
     subprocess.run(["git", "-C", "/repo", "worktree", "remove", "--force", wt])
     shutil.rmtree(tmp, ignore_errors=True)
